@@ -53,6 +53,22 @@ def type_tree(x: Any) -> Any:
     return None
 
 
+def _share_equal_containers(v: Any, pool: Any = None) -> Any:
+    import json as _json
+
+    pool = {} if pool is None else pool
+    if isinstance(v, dict):
+        v = {k: _share_equal_containers(x, pool) for k, x in v.items()}
+    elif isinstance(v, list):
+        v = [_share_equal_containers(x, pool) for x in v]
+    else:
+        return v
+    if not v:
+        return v
+    key = type(v).__name__ + _json.dumps(v, sort_keys=True, default=str)
+    return pool.setdefault(key, v)
+
+
 def _plain(v: Any) -> Any:
     if hasattr(v, "model_dump") and not isinstance(v, dict):
         return v.model_dump(by_alias=True, exclude_none=True)
@@ -97,6 +113,9 @@ def handle(req: Dict[str, Any]) -> Any:
                 ("dumps_after_pretty", lambda: (fj.dumps({"x": [v]}, indent=2), fj.dumps(v))[1]),
                 ("model_request", lambda: JSONRPCRequest(id=1, method="m", params={"v": v}).model_dump_json(exclude_none=True)),
                 ("model_response", lambda: JSONRPCResponse(id=1, result={"v": v}).model_dump_json(exclude_none=True)),
+                # an object value as the params / result itself (its member names are first-level names of the envelope)
+                ("model_request_top", lambda: JSONRPCRequest(id=1, method="m", params=v).model_dump_json(exclude_none=True) if isinstance(v, dict) else ("$skip",)),
+                ("model_response_top", lambda: JSONRPCResponse(id=1, result=v).model_dump_json(exclude_none=True) if isinstance(v, dict) and v else ("$skip",)),
             ):
                 try:
                     r[name] = fn()
@@ -159,6 +178,10 @@ def handle(req: Dict[str, Any]) -> Any:
                 elif how == "kwargs":
                     obj = cls(**data)
                 else:
+                    if how == "validate_shared":
+                        # an application that builds its objects in Python reuses fragments: every pair of equal
+                        # containers in the input becomes ONE object referenced from both places (sharing, not a cycle)
+                        data = _share_equal_containers(data)
                     obj = cls.model_validate(data)
                     if how == "validate_plain_first":
                         # the application looks at the object under its Python names first (logging, a cache key ...)
@@ -192,6 +215,28 @@ def handle(req: Dict[str, Any]) -> Any:
                 out.append(("accept", tt, dump, dj))
             except Exception as e:  # noqa
                 out.append(("reject", type(e).__name__, str(e)[:300], None))
+        return out
+    if op == "build":
+        # [(function target, kwargs)] -> the wire form of what a create_* builder returns
+        out = []
+        for fn_target, kwargs in req["calls"]:
+            try:
+                r = resolve(fn_target)(**kwargs)
+                res: Dict[str, Any] = {"type": type(r).__name__}
+                if hasattr(r, "model_dump") and not isinstance(r, dict):
+                    res["wire"] = r.model_dump(by_alias=True, exclude_none=True)
+                    if type(r).__name__ in ("ToolResult", "CallToolResult"):
+                        from chuk_mcp.protocol.types.tools import tool_result_to_dict
+
+                        try:
+                            res["to_dict"] = tool_result_to_dict(r)
+                        except Exception as e:  # noqa
+                            res["to_dict"] = ("$error", f"{type(e).__name__}: {e}")
+                elif isinstance(r, (dict, list)):
+                    res["wire"] = _plain(r)
+                out.append(("ok", res))
+            except Exception as e:  # noqa
+                out.append(("error", f"{type(e).__name__}: {e}"))
         return out
     if op == "apply":
         # [(function target, [(model target | None, wire)], kwargs)] -> what the function returns, observed as a transport would
